@@ -93,6 +93,8 @@ theorem freshRelE : HRelE (fun _ => True) True Fresh where
       (rest := (chk s (.setl v il) []).2.pending) ?_ rfl ?_ (h4.map _)
     · simp only [gccState]; rw [h1]
     · simp only [gccPend]; rw [h1]
+  seq := fun s name exts cargs v => Fresh.of_push (p := seqPend s name exts cargs v) rfl rfl rfl
+    ((popPending_spec _ _).2.1.map _)
 
 theorem freshRel : HRel (fun _ => True) True Fresh where
   toHRelE := freshRelE
@@ -177,6 +179,8 @@ theorem shapeRelE : HRelE (fun _ => True) True ShapeRel where
   gcc := fun s v il _ => ShapeRel.of_push (s' := gccState s v il)
     (p := gccPend (chk s (.setl v il) []).2.hyb v (chk s (.setl v il) []).1) rfl (chk_snd _ _ _ _).2.2.2
     ⟨⟨_, rfl⟩, isHTmp_tmpName _⟩
+  seq := fun s name exts cargs v => ShapeRel.of_push (p := seqPend s name exts cargs v) rfl (popPending_spec _ _).2.1
+    ⟨⟨_, rfl⟩, isHTmp_tmpName _⟩
 
 theorem shapeRel : HRel (fun _ => True) True ShapeRel where
   toHRelE := shapeRelE
@@ -208,6 +212,7 @@ theorem immRelE : HRelE (fun n => isHTmp n = false) True ImmRel where
   gcc := fun s v il _ h x hx => by
     have : (gccState s v il).imms = s.imms := (chk_snd s (.setl v il) [] false).2.1
     rw [this] at hx; exact h x hx
+  seq := fun s name exts cargs v h => h
 
 theorem immRel : HRel (fun n => isHTmp n = false) True ImmRel where
   toHRelE := immRelE
